@@ -3,7 +3,8 @@
 From Coq Require Import List String Bool Arith NArith Permutation.
 From Helm Require Import Common.Assoc Common.Strs Storage.Spec Storage.Mem Storage.Kube
   Storage.Proofs Storage.Refine Storage.MemProofs Storage.KubeProofs Storage.Corollaries
-  Storage.Examples Storage.Tables Gen.SystemLabels.
+  Storage.Examples Storage.Tables Storage.MemNs Storage.MemNsProofs Storage.KubeX Storage.KubeXProofs
+  Gen.SystemLabels.
 Import ListNotations.
 Local Open Scope string_scope.
 
@@ -219,3 +220,66 @@ Print Assumptions C10_kube_list_exact.
 Theorem C10_system_labels_table : system_labels = system_label_keys.
 Proof. exact system_labels_table. Qed.
 Print Assumptions C10_system_labels_table.
+
+(* ---------- namespaces (memory driver) ---------- *)
+(* with no hypothesis at all: for every sequence of driver calls and SetNamespace calls, on
+   releases of any namespaces, the memory driver answers as one reference map per namespace
+   plus a current-namespace register that every Create/Update overwrites ([nspec_step]);
+   List/Query with current namespace "" range over all namespaces *)
+Theorem C10_mem_refines_nspec : forall xs : list mop,
+  Forall2 out_equiv (mem_mrun mem_init xs) (nspec_run nspec_init xs).
+Proof. exact mem_refines_nspec. Qed.
+Print Assumptions C10_mem_refines_nspec.
+
+Example C10_mem_refines_nspec_ex :
+  mem_mrun mem_init ex_ns_ops =
+  [ ROk; ROk; RErr ENotFound; RRels [mkRel "web" "team-b" 1 "deployed" [] 2]; ROk;
+    RRels [mkRel "app" "team-a" 1 "deployed" [] 1; mkRel "web" "team-b" 1 "deployed" [] 2];
+    RErr ENotFound; ROk; RRel (mkRel "app" "team-a" 1 "deployed" [] 1); ROk;
+    RRels [mkRel "web" "team-b" 1 "deployed" [] 2] ] /\
+  nspec_run nspec_init ex_ns_ops = mem_mrun mem_init ex_ns_ops.
+Proof. exact ex_ns. Qed.
+Print Assumptions C10_mem_refines_nspec_ex.
+
+(* the single-namespace hypothesis of C10_mem_refines_spec cannot be dropped: after a write
+   to a second namespace the first release is not found although the flat map has it *)
+Theorem C10_mem_two_namespaces_refuted :
+  exists ops r, nth_error (spec_run [] ops) 2 = Some (RRel r) /\
+                nth_error (mem_run mem_init ops) 2 = Some (RErr ENotFound).
+Proof. exact mem_two_namespaces_refuted. Qed.
+Print Assumptions C10_mem_two_namespaces_refuted.
+
+(* ---------- a record that does not decode (also used by C20) ---------- *)
+(* after any history, if an object with an undecodable body appears under the key of
+   (n, v): List and Query still return exactly the other stored releases (Query answers
+   with an empty list, not not-found, when only the damaged record matches); Get and Delete
+   of that key fail and change nothing; every other key reads as before *)
+Theorem C10_list_skips_undecodable :
+  forall (B : Type) (enc : rel -> B) (dec : B -> option rel) (valid_label_value : string -> bool) (bad : B),
+  (forall r, dec (enc r) = Some r) -> dec bad = None ->
+  forall (ops : list op) (n : string) (v : nat) (st : string),
+  Forall (kube_op_ok valid_label_value) ops ->
+  let k := kube_exec B enc dec valid_label_value [] ops in
+  let k' := fst (kube_xstep B enc dec valid_label_value bad k (XCorrupt n v st)) in
+  let others := map snd (adel (make_key n v) (spec_exec [] ops)) in
+  (exists l, snd (kube_step B enc dec valid_label_value k' OList) = RRels l /\ map strip_rel l = others) /\
+  (forall q, kube_op_ok valid_label_value (OQuery q) ->
+     match snd (kube_step B enc dec valid_label_value k' (OQuery q)) with
+     | RRels l => map strip_rel l = filter (sys_match q) others
+     | RErr e => filter (sys_match q) others = []
+     | _ => False
+     end) /\
+  kube_step B enc dec valid_label_value k' (OGet n v) = (k', RErr EOther) /\
+  kube_step B enc dec valid_label_value k' (ODelete n v) = (k', RErr EOther) /\
+  (forall n' v', make_key n' v' <> make_key n v ->
+     snd (kube_step B enc dec valid_label_value k' (OGet n' v')) =
+     snd (kube_step B enc dec valid_label_value k (OGet n' v'))).
+Proof. exact list_skips_undecodable. Qed.
+Print Assumptions C10_list_skips_undecodable.
+
+Example C10_list_skips_undecodable_ex :
+  map strip_out (exx_run [] exx_ops) =
+  [ ROk; ROk; ROk; RRels [exx_b]; RErr EOther; RRel exx_b; RRels [exx_b]; RRels [];
+    RErr EExists; RErr EOther; ROk; RRel exx_a ].
+Proof. exact exx_outs. Qed.
+Print Assumptions C10_list_skips_undecodable_ex.
